@@ -14,10 +14,10 @@ Section Sparse.
   Local Notation "x /. y" := (adiv A x y) (at level 40, left associativity).
   Local Notation zero := (azero A).
 
-  Definition entry := (nat * F)%type.
-  Definition row := list entry.
-  Definition matrix := list row.
-  Definition vec := list F.
+  Local Notation entry := (nat * F)%type.
+  Local Notation row := (list (nat * F)).
+  Local Notation matrix := (list (list (nat * F))).
+  Local Notation vec := (list F).
 
   Definition vget (X : vec) (i : nat) : F := nth i X zero.
   Fixpoint vset (X : vec) (i : nat) (v : F) : vec :=
@@ -309,3 +309,7 @@ Section Sparse.
     | o :: ops' => let '(L', out) := step L o in out :: run L' ops'
     end.
 End Sparse.
+
+Notation rowT F := (list (nat * F)) (only parsing).
+Notation matrixT F := (list (list (nat * F))) (only parsing).
+Notation vecT F := (list F) (only parsing).
